@@ -58,7 +58,7 @@ struct PmrMachine {
 				case 2: { int id = 1 + static_cast<int>(x & 1U); ctx.desc << " <- " << b << " res" << id; slot[a] = std::make_unique<Arr>(*slot[b], std::pmr::polymorphic_allocator<int>(&r[id])); res[a] = id; model[a] = model[b]; break; }
 				case 3: ctx.desc << " <- " << b; slot[a] = std::make_unique<Arr>(std::move(*slot[b])); res[a] = res[b]; model[a] = model[b]; model[b].ext = {0, 0}; model[b].v.clear(); break;
 				case 4: { int id = 1 + static_cast<int>(x & 1U); ctx.desc << " <- " << b << " res" << id;
-					if(id != res[b] && !vp::known_mode()) { ctx.count("excluded_move_ctor_unequal_resource"); ctx.desc << " (excluded)"; break; }
+					if(id != res[b]) { ctx.count("move_ctor_unequal_resource"); }  // the elements are moved into storage of the given resource, the source is left empty (fix aa19970)
 					slot[a] = std::make_unique<Arr>(std::move(*slot[b]), std::pmr::polymorphic_allocator<int>(&r[id])); res[a] = id; model[a] = model[b]; model[b].ext = {0, 0}; model[b].v.clear(); break; }
 				case 5: ctx.desc << " <- " << b; *slot[a] = *slot[b]; model[a] = model[b]; break;  // POCCA is false for pmr: the resource stays
 				case 6: ctx.desc << " <- " << b;
